@@ -381,7 +381,12 @@ def _value_case(case, res):
     return res.violate('pg.query returned %d entries for %d nodes in %r: %r' % (len(q), len(sref), v, list(q)),
                        law='query-count', api='pg.query')
   for (ps, x), (rp, rx, _) in zip(q.items(), sref):
-    if not _same_keys(pg.KeyPath.parse(ps).keys, list(rp)) or x is not rx:
+    try:
+      parsed = pg.KeyPath.parse(ps).keys
+    except Exception as e:   # pylint: disable=broad-except
+      return res.violate('pg.query key %r for the node at %r does not parse: %r' % (ps, rp, e), law='query-path', api='pg.query',
+                         how='unparsable')
+    if not _same_keys(parsed, list(rp)) or x is not rx:
       return res.violate('pg.query key %r vs node at %r in %r' % (ps, rp, v), law='query-path', api='pg.query')
   # flatten / canonicalize are inverse (string-keyed dicts and lists)
   flat = pg.utils.flatten(v, flatten_complex_keys=False)
